@@ -7,6 +7,15 @@ RULES = {
     "R-LINK": ("rules.accounting", "r_link"),
     "R-WINDOW": ("rules.accounting", "r_window"),
     "R-BULKDROP-GUARD": ("rules.accounting", "r_bulkdrop_guard"),
+    "R-PROBE-STOP": ("rules.lookup", "r_probe_stop"),
+    "R-SLOT-PROVENANCE": ("rules.lookup", "r_slot_provenance"),
+    "R-SLOT-FRESH": ("rules.lookup", "r_slot_fresh"),
+    "R-BUCKET-FRESH": ("rules.lookup", "r_bucket_fresh"),
+    "R-RESERVE-FIRST": ("rules.lookup", "r_reserve_first"),
+    "R-RESERVE-GUARD": ("rules.lookup", "r_reserve_guard"),
+    "R-REHASH-DECISION": ("rules.lookup", "r_rehash_decision"),
+    "R-ENTRY-NOEFFECT": ("rules.lookup", "r_entry_noeffect"),
+    "R-EQ-NOEFFECT": ("rules.lookup", "r_eq_noeffect"),
     "R-ACCT": ("rules.acct", "r_acct"),
     "R-CTRL-WRITE": ("rules.acct", "r_ctrl_write"),
     "R-ERASE-BEFORE": ("rules.ownership", "r_erase_before"),
@@ -73,6 +82,14 @@ PROPS["C03"] = {
                "no local RawTableInner (which has no Drop) is dropped on the floor (R-LINEAR-INNER); an element is moved out or destroyed only after its slot was unregistered (R-ERASE-BEFORE); "
                "owning iterators destroy their remainder through the same cursor and then release storage (R-OWNING-ITER); bit-wise duplicates forget the original (R-DUP-FORGET); the drain protocol (R-DRAIN-PROTOCOL); guarded bulk destruction (R-BULKDROP-GUARD)",
     "not_decided": "that the group walk in drop_elements reaches every FULL byte; per-element drop counts for particular histories",
+}
+
+PROPS["C01"] = {
+    "rules": ["R-PROBE-STOP", "R-CTRL-WRITE", "R-SLOT-PROVENANCE", "R-SLOT-FRESH", "R-BUCKET-FRESH", "R-ACCT", "R-RESERVE-GUARD", "R-REHASH-DECISION"],
+    "level": "other",
+    "decided": "the mechanisms the property rests on are structurally intact on every path: lookups stop only at an EMPTY byte and all search loops agree (R-PROBE-STOP); control bytes are written only through mirror-maintaining primitives (R-CTRL-WRITE); "
+               "every insert slot passes through the small-table fix-up (R-SLOT-PROVENANCE) and is consumed before any other mutation, buckets are not used across a rehash (R-SLOT-FRESH, R-BUCKET-FRESH); free-slot accounting (R-ACCT); growth decisions (R-RESERVE-GUARD, R-REHASH-DECISION)",
+    "not_decided": "that each call returns what a reference association list would return; the values computed by erase's DELETED-vs-EMPTY threshold, the triangular probe, is_in_same_group and the in-place rehash loop",
 }
 
 NOT_APPLICABLE = {
